@@ -574,6 +574,13 @@ def render(n, depth=0, x=False, subst=None, canon=False):
             return "(%s %s %s)" % (a, {"Add": "+", "Mul": "*", "And": "&&", "Or": "||", "Eq": "==", "Ne": "!=", "BitOr": "|", "BitAnd": "&"}[n["op"]], b)
         if k == "Block" and not n.get("stmts") and "expr" in n:
             return r(n["expr"])
+        if k == "MethodCall" and n.get("method") == "len" and not n.get("args"):
+            # the byte length of a string is the length of its bytes
+            inner = peel(n["recv"])
+            while isinstance(inner, dict) and inner.get("k") == "Path" and "let_init" in inner and x:
+                inner = peel(inner["let_init"])
+            if isinstance(inner, dict) and inner.get("k") == "MethodCall" and inner.get("method") in ("as_bytes", "as_str", "as_ref") and not inner.get("args"):
+                return "%s.len()" % r(inner["recv"])
     if k == "Path":
         if n.get("res") == "local":
             if subst is not None and n.get("lid") in subst:
